@@ -1569,3 +1569,11 @@ M('C16', 'offset clipped at zero from the smaller space', 'odl/discr/discr_ops.p
   "    diff_l = np.abs(ran.grid.min() - dom.grid.min())",
   "    small, large = (dom, ran) if dom.size <= ran.size else (ran, dom)\n    diff_l = np.maximum(small.grid.min() - large.grid.min(), 0)",
   'C16-R4b')
+M('C16', 'unchanged axes get the inner slice on both arrays', 'odl/util/numerics.py',
+  """        else:
+            # Same size, so full slices for both
+            lhs_slc.append(slice(None))
+            rhs_slc.append(slice(None))""",
+  """        else:
+            lhs_slc.append(inner_slc)
+            rhs_slc.append(inner_slc)""", '3x4->3x7')
